@@ -133,6 +133,10 @@ def check_step(ctx, kind, st):
     if not S.vm_done:
         S.vm_done = True
         vm_crosscheck(ctx)
+        import time
+        t0 = time.time()
+        layout_crosscheck(ctx)
+        ctx.hist["ogg:layout-crosscheck-seconds"] = round(time.time() - t0, 1)
     if st.wbefore is not S.prev_w or S.prev_w is None:
         S.obj = None          # a new history starts with a new Runner
     S.prev_w = st.wafter
@@ -281,7 +285,7 @@ def multiplex(rng, d, codec=None):
     return b"".join(out), s
 
 
-def run_layout(ctx, kind, f0, d2, what):
+def run_layout(ctx, kind, f0, d2, what, sizes=(0, 1, 200, 3000, 70000)):
     """set a tag through mutagen on the layout f0, save with a random padding mode, delete; compare with the model"""
     from .engine import pad_callback
     codec = kind.codec
@@ -306,7 +310,7 @@ def run_layout(ctx, kind, f0, d2, what):
     vendor = norm_vendor(sh[0])
     ctx.count("ogg:layout")
     mode_name = rng.choice(["default", "zero", "one", "odd", "large", "keep", "none"]) if kind.padding else "none"
-    o.tags["title"] = ["Zq" + "ä" * rng.choice([0, 1, 200, 3000, 70000])]
+    o.tags["title"] = ["Zq" + "ä" * rng.choice(list(sizes))]
     if rng.random() < 0.3:
         o.tags["x y"] = ["", "=="]
     comments = [(k.encode("ascii"), v.encode("utf-8")) for k, v in list(o.tags)]
@@ -386,6 +390,16 @@ def extra_layouts(ctx, kind, st, data):
             ctx.disagree("fam.ogg", "ogg_set_packet failed", dict(data, reply=r[:100]))
             return
         run_layout(ctx, kind, unhx(r[3:]), dict(data, runner="fam.ogg.layout", layout="opus-tail", tail_len=len(tail)), "opus tail layout")
+    # (4) layouts of other writers built on this file's identification packet
+    if rng.random() < 0.5:
+        from . import synth_ogg as SO
+        try:
+            ident = SO.ident_packet(f, codec)
+            desc, f0 = foreign_layout(rng, kind, ident) if ident else (None, None)
+        except (W.Bad, AssertionError):
+            desc = None
+        if desc:
+            run_layout(ctx, kind, f0, dict(data, runner="fam.ogg.layout", layout="foreign-writer", **desc), "foreign-writer layout (%s)" % desc["shape"])
     # (3) comment packets of awkward sizes around the lacing / page limits, zero padding in place
     if codec != "flac" and rng.random() < 0.5:
         sh, _ = model_open(ctx, f, codec)
@@ -401,6 +415,64 @@ def extra_layouts(ctx, kind, st, data):
             ctx.disagree("fam.ogg", "ogg_set_packet failed", dict(data, reply=r[:100]))
             return
         run_layout(ctx, kind, unhx(r[3:]), dict(data, runner="fam.ogg.layout", layout="padded-%d" % total), "padded layout")
+
+
+# ---------------------------------------------------------------------------------- layouts of other writers
+def foreign_layout(rng, kind, ident):
+    """one layout of synth_ogg (own page writer) with random parameters: libogg-style paging (comment packet complete inside a
+    page that ends in the unfinished next header packet), a comment packet on pages of its own ending on or next to a page
+    boundary, Opus data behind the comment list (opaque / non-zero padding), FLAC-in-Ogg with the comment as the last block
+    or with blocks behind it.  -> (description, bytes)"""
+    from . import synth_ogg as SO
+    c = kind.codec
+    vendor = rng.choice([b"", b"v", SO.VENDOR, b"x" * 239, b"y" * 240])
+    items = list(SO.ITEMS[:rng.choice([0, 1, 3])])
+    if c == "flac":
+        behind = rng.choice([[], [(1, bytes(rng.choice([0, 1, 300])))], [(2, b"aPpL" + SO.pattern(40)), (1, bytes(64))],
+                             [(3, SO.pattern(18)), (2, b"last")]])
+        multi = rng.random() < 0.4
+        if multi:
+            items.append(b"COVERART=" + b"QUJD" * rng.choice([1100, 1650]))
+        return dict(shape="oggflac", behind=[t for t, _ in behind], multipage=multi, vendor_len=len(vendor)), \
+            SO.oggflac(ident, vendor, items, behind=behind, comment_pages=multi)
+    if c == "opus" and rng.random() < 0.7:
+        b0 = rng.choice([1, 3, 0x81, 0xFF, 0, 2, 0x20, rng.randrange(256)])
+        trailer = bytes([b0]) + rng.choice([b"", b"\x00", SO.OPAQUE, SO.STALE[1:], b" " * 95])
+        return dict(shape="opus-trailer", first_byte=b0, trailer_len=len(trailer), vendor_len=len(vendor)), SO.opus_file(ident, trailer, vendor, items)
+    minimal = len(SO.comment_packet(c, vendor, items))
+    if c in SO.SETUP and rng.random() < 0.5:
+        total = max(minimal, rng.choice([0, 255, 600, 4080, 5000, 7000, 9001]))
+        part = rng.choice([255, 3060])
+        return dict(shape="shared-page", comment_len=total, setup_part=part, vendor_len=len(vendor)), \
+            SO.headers_shared_page(c, ident, SO.comment_packet(c, vendor, items, total), first_part=part)
+    size = rng.choice([255, 1020, 4080])
+    total = max(minimal, rng.choice([size, size + 1, 2 * size - 1, 2 * size, 2 * size + 255, 3 * size, 3 * size + 7]))
+    return dict(shape="own-pages", comment_len=total, page_payload=size, vendor_len=len(vendor)), \
+        SO.headers_own_pages(c, ident, SO.comment_packet(c, vendor, items, total), page_size=size)
+
+
+def layout_crosscheck(ctx):
+    """once per run: save + delete on layouts of other writers (synth_ogg) for every Ogg kind, mutagen against the model"""
+    from . import synth_ogg as SO
+    from .kinds import KINDS as ALL
+    import os
+    from .kinds import DATA, SAMPLES
+    n = 3 if not ctx.thorough else 12
+    for kname in sorted(KINDS):
+        kind = ALL[kname]
+        pth = os.path.join(DATA, SAMPLES[kname][0])
+        if not os.path.exists(pth):
+            continue
+        ident = SO.ident_packet(open(pth, "rb").read(), kind.codec)
+        if ident is None:
+            continue
+        fixed = [({"shape": nm.split("+")[0]}, d) for nm, d in SO.layouts(kind, [(SAMPLES[kname][0], open(pth, "rb").read())])]
+        if not ctx.thorough:
+            fixed = fixed[:1] if ctx.rng.random() < 0.5 else fixed[-1:]
+        for desc, f0 in fixed + [foreign_layout(ctx.rng, kind, ident) for _ in range(n)]:
+            ctx.count("ogg:layout-crosscheck")
+            run_layout(ctx, kind, f0, dict(desc, kind=kname, runner="fam.ogg.layout", layout="foreign-writer"),
+                       "foreign-writer layout (%s)" % desc["shape"], sizes=(0, 1, 200, 3000))
 
 
 # ---------------------------------------------------------------------------------- vm_compute cross-check
